@@ -29,14 +29,14 @@ def cases(ctx):
     for m in range(1, ctx.pick(3, 4) + 1):
         yield "grid_pairs", {"m": m}
     yield "grid_triples", {}
-    nb = ctx.pick(10, 160)
+    nb = ctx.pick(20, 3200)
     for i in range(nb):
         yield "random_pairs", {"seed": ctx.subseed("rp", i), "n": 5000}
-    for i in range(ctx.pick(4, 64)):
+    for i in range(ctx.pick(8, 1280)):
         yield "random_triples", {"seed": ctx.subseed("rt", i), "n": 2000}
-    for i in range(ctx.pick(8, 128)):
+    for i in range(ctx.pick(16, 2560)):
         yield "eps_pairs", {"seed": ctx.subseed("ep", i), "n": 3000}
-    for i in range(ctx.pick(6, 96)):
+    for i in range(ctx.pick(16, 960)):
         yield "insitu", {"seed": ctx.subseed("is", i)}
 
 
